@@ -111,7 +111,10 @@ def stmt_failure(ref, L, t, centre, w, noise=None):
             return 'raised %s for uint16 point sets: %s' % (type(e).__name__, e)
         if np.abs(fit_u - fit).max() > 1e-8 * sc:
             return 'uint16 point sets give a different transformation than the same values as float64 (max deviation %.4g)' % np.abs(fit_u - fit).max()
-    if np.abs(fit[:, 2] - np.array([0, 0, 1])).max() > 1e-9:
+    # accuracy of the last column: round-off of the solve grows with the condition of the weighted design (weights over many decades)
+    cpt0 = np.zeros(2) if centre is None else centre
+    condw = np.linalg.cond(np.hstack([ref - cpt0, np.ones((len(ref), 1))]) * (np.ones(len(ref)) if w is None else w)[:, None])
+    if np.abs(fit[:, 2] - np.array([0, 0, 1])).max() > 1e-9 + 1e-14 * condw:
         return 'last column of the fitted matrix is not (0,0,1): %s' % fit[:, 2].tolist()
     if np.array_equal(ref, np.rint(ref)):
         # the same reference points as an integer array (pixel positions) must give the same result
